@@ -66,9 +66,9 @@ TTruth3 ==
   /\ IF ~IsRows THEN Emit(Finding("C23", "query-failed", Res.err))
      ELSE LET bad == SelectIdx(NRows, LAMBDA i : Truth3Bad(Rows[i]) # "")
               pairs == {<<Rows[i][1], Rows[i][2]>> : i \in 1..NRows}
-          IN /\ (Len(bad) = 0 \/ Emit(Finding("C23", "truth-table",
+          IN /\ (IF Len(bad) = 0 THEN TRUE ELSE Emit(Finding("C23", "truth-table",
                     [row |-> Rows[bad[1]], law |-> Truth3Bad(Rows[bad[1]])])))
-             /\ ((NRows = 9 /\ Cardinality(pairs) = 9) \/ Emit(Finding("C23", "truth-table-rows", NRows)))
+             /\ (IF (NRows = 9 /\ Cardinality(pairs) = 9) THEN TRUE ELSE Emit(Finding("C23", "truth-table-rows", NRows)))
   /\ l' = l + 1 /\ UNCHANGED <<ovf, gr>>
 
 (***************************************************************************)
@@ -160,10 +160,9 @@ TArith ==
          over == {j \in 0..(n - 1) : ~ArHasNull(j) /\ ~InI64(ArExact(j))}
      IN IF ~IsRows THEN
           (* an error is an admissible overflow rule only if some operand pair overflows *)
-          /\ (over # {} \/ Emit(Finding("C23", "query-failed", Res.err)))
+          /\ (IF over # {} THEN TRUE ELSE Emit(Finding("C23", "query-failed", Res.err)))
           /\ ovf' = IF over # {} /\ ovf = "" THEN "error" ELSE ovf
-          /\ (over = {} \/ ovf \in {"", "error"} \/
-              Emit(Finding("C23", "overflow-rule-differs", [op |-> Meta.op, here |-> "error", first |-> ovf])))
+          /\ (IF over = {} \/ ovf \in {"", "error"} THEN TRUE ELSE Emit(Finding("C23", "overflow-rule-differs", [op |-> Meta.op, here |-> "error", first |-> ovf])))
         ELSE IF NRows # n THEN Emit(Finding("C23", "arith-rows", NRows)) /\ UNCHANGED <<ovf, gr>>
         ELSE
           LET nullbad == {j \in 0..(n - 1) : ArHasNull(j) /\ ~IsNull(ArRowOf(j)[2])}
@@ -175,16 +174,15 @@ TArith ==
                          IF "float" \in cls THEN "float" ELSE CHOOSE c \in cls : TRUE
               differ  == {c \in cls : first # "" /\ c # first /\ ~(c = "float?" /\ first = "float")
                                       /\ ~(c = "float" /\ first = "float?")}
-          IN /\ (nullbad = {} \/ Emit(Finding("C23", "null-propagation",
+          IN /\ (IF nullbad = {} THEN TRUE ELSE Emit(Finding("C23", "null-propagation",
                                   [op |-> Meta.op, pair |-> ArPair(CHOOSE j \in nullbad : TRUE)])))
-             /\ (inbad = {} \/ Emit(Finding("C23", "int-arith-wrong",
+             /\ (IF inbad = {} THEN TRUE ELSE Emit(Finding("C23", "int-arith-wrong",
                                   [op |-> Meta.op, pair |-> ArPair(CHOOSE j \in inbad : TRUE),
                                    got |-> ArRowOf(CHOOSE j \in inbad : TRUE)[2]])))
-             /\ (wrapped = {} \/ Emit(Finding(IF Meta.op = "sum" THEN "C21" ELSE "C23", "overflow-wraps",
+             /\ (IF wrapped = {} THEN TRUE ELSE Emit(Finding(IF Meta.op = "sum" THEN "C21" ELSE "C23", "overflow-wraps",
                                   [op |-> Meta.op, pair |-> ArPair(CHOOSE j \in wrapped : TRUE),
                                    got |-> ArRowOf(CHOOSE j \in wrapped : TRUE)[2]])))
-             /\ (differ \ {"wrapped", "exact", "float-wrong"} = {} \/
-                 Emit(Finding("C23", "overflow-rule-differs",
+             /\ (IF differ \ {"wrapped", "exact", "float-wrong"} = {} THEN TRUE ELSE Emit(Finding("C23", "overflow-rule-differs",
                               [op |-> Meta.op, here |-> SetToSeq(differ), first |-> first])))
              /\ ovf' = first
   /\ l' = l + 1 /\ UNCHANGED gr
@@ -221,14 +219,13 @@ TOrder ==
                          Cardinality({q \in 1..NRows : Rows[q] = Rows[p]}) >
                          Cardinality({i \in 1..n : OrdKeys(i) = Rows[p]})}
        IN IF incomparable THEN Emit(Finding("C20", "generator-incomparable-keys", n))
-          ELSE /\ (NRows = want \/ Emit(Finding("C20", "slice-length", [got |-> NRows, want |-> want])))
-               /\ (foreign = {} \/ Emit(Finding("C20", "not-a-permutation",
+          ELSE /\ (IF NRows = want THEN TRUE ELSE Emit(Finding("C20", "slice-length", [got |-> NRows, want |-> want])))
+               /\ (IF foreign = {} THEN TRUE ELSE Emit(Finding("C20", "not-a-permutation",
                                     [row |-> Rows[CHOOSE p \in foreign : TRUE]])))
-               /\ (unsorted = {} \/
+               /\ (IF unsorted = {} THEN TRUE ELSE
                    LET i == CHOOSE i \in unsorted : TRUE IN
                    Emit(Finding("C20", "not-sorted", [first |-> Rows[i], second |-> Rows[i + 1], dirs |-> OrdDirs])))
-               /\ (unsorted # {} \/ foreign # {} \/ misplaced = {} \/
-                   Emit(Finding("C20", "wrong-slice", [pos |-> CHOOSE p \in misplaced : TRUE, skip |-> s])))
+               /\ (IF unsorted # {} \/ foreign # {} \/ misplaced = {} THEN TRUE ELSE Emit(Finding("C20", "wrong-slice", [pos |-> CHOOSE p \in misplaced : TRUE, skip |-> s])))
   /\ l' = l + 1 /\ UNCHANGED <<ovf, gr>>
 
 (***************************************************************************)
@@ -250,20 +247,26 @@ SumBig(S, scale) ==   \* exact sum of numbers, scaled by 2^scale (all e <= scale
 MaxE(S) == IF S = {} THEN 0 ELSE LET es == {NumE(AggV(i)) : i \in S} IN CHOOSE e \in es : \A f \in es : f <= e
 (* one index per distinct value *)
 Distinct(S) == {i \in S : \A j \in S : AggV(j) = AggV(i) => i <= j}
+RECURSIVE SumAbsBig(_, _)
+SumAbsBig(S, scale) ==   \* sum of the absolute values, scaled by 2^scale
+  IF S = {} THEN BigZero
+  ELSE LET i == CHOOSE x \in S : TRUE
+       IN BigAdd(BigAbs(BigMulPow2(NumN(AggV(i)), scale - NumE(AggV(i)))), SumAbsBig(S \ {i}, scale))
+(* a float answer f = n/2^e for an exact value x/2^sc, within the rounding error of adding the  *)
+(* values in any order: | f*k - x/2^sc | <= (sum of |v|) / 2^48                                 *)
+FloatWithin(cell, k, x, sc, S) ==
+  cell[1] = "float" /\
+  (cell[2].k = "other" \/
+   (cell[2].k = "fin" /\
+    LET lhs == BigAbs(BigSub(BigMulPow2(BigMulSmall(cell[2].n, k), sc), BigMulPow2(x, cell[2].e)))
+    IN BigCmp(BigMulPow2(lhs, 48), BigMulPow2(SumAbsBig(S, sc), cell[2].e)) <= 0))
 SumOk(cell, S) ==     \* S: indices of the non-null values, all exact finite numbers
   LET sc == MaxE(S) x == SumBig(S, sc) allInt == \A i \in S : IsInt(AggV(i)) IN
   IF allInt THEN (IF InI64(x) THEN cell = <<"int", x>> ELSE OverflowClass(cell, x) \in {"float", "float?", "null"})
-  ELSE cell[1] = "float" /\ cell[2].k = "fin"
-       /\ BigCmp(BigMulPow2(cell[2].n, sc), BigMulPow2(x, cell[2].e)) = 0
+  ELSE FloatWithin(cell, 1, x, sc, S)
 AvgOk(cell, S) ==
   LET sc == MaxE(S) x == SumBig(S, sc) cnt == Cardinality(S) IN
-  IF S = {} THEN IsNull(cell)
-  ELSE cell[1] = "float" /\
-       (cell[2].k = "other" \/
-        (cell[2].k = "fin" /\
-         (* | avg * cnt - sum | <= |sum| / 2^48 + tiny *)
-         LET lhs == BigAbs(BigSub(BigMulPow2(BigMulSmall(cell[2].n, cnt), sc), BigMulPow2(x, cell[2].e)))
-         IN BigCmp(BigMulPow2(lhs, 48), BigMulPow2(BigAbs(x), cell[2].e)) <= 0))
+  IF S = {} THEN IsNull(cell) ELSE FloatWithin(cell, cnt, x, sc, S)
 Extreme(S, dir) ==   \* index of a minimal (dir = -1) / maximal (dir = 1) value
   CHOOSE i \in S : \A j \in S : OrdCmp(AggV(i), AggV(j)) * dir >= 0
 BagEq(cellList, S) ==
@@ -295,9 +298,8 @@ TAgg ==
        LET keys == {AggK(i) : i \in 1..Len(AggIn)}
            dupRows == {p \in 1..NRows : \E q \in 1..NRows : q # p /\ Rows[q][1] = Rows[p][1]}
            bad == SelectIdx(NRows, LAMBDA p : AggRowBad(Rows[p]) # "")
-       IN /\ ((NRows = Cardinality(keys) /\ dupRows = {}) \/
-              Emit(Finding("C21", "one-row-per-key", [rows |-> NRows, keys |-> Cardinality(keys)])))
-          /\ (Len(bad) = 0 \/ Emit(Finding("C21", "aggregate-" \o AggRowBad(Rows[bad[1]]),
+       IN /\ (IF (NRows = Cardinality(keys) /\ dupRows = {}) THEN TRUE ELSE Emit(Finding("C21", "one-row-per-key", [rows |-> NRows, keys |-> Cardinality(keys)])))
+          /\ (IF Len(bad) = 0 THEN TRUE ELSE Emit(Finding("C21", "aggregate-" \o AggRowBad(Rows[bad[1]]),
                                   [row |-> Rows[bad[1]]])))
   /\ l' = l + 1 /\ UNCHANGED <<ovf, gr>>
 
@@ -313,8 +315,7 @@ Consumes(m) ==
   \/ m.fail < m.limit           \* the failing row is among the first LIMIT rows
 TErr ==
   /\ IsCase("err")
-  /\ (~Consumes(Meta) \/ Res.out = "err" \/
-      Emit(Finding("C22", "error-swallowed", [op |-> Meta.op, pos |-> Meta.pos, fail |-> Meta.fail,
+  /\ (IF ~Consumes(Meta) \/ Res.out = "err" THEN TRUE ELSE Emit(Finding("C22", "error-swallowed", [op |-> Meta.op, pos |-> Meta.pos, fail |-> Meta.fail,
                                               rows |-> NRows, query |-> Rec[l].query])))
   /\ l' = l + 1 /\ UNCHANGED <<ovf, gr>>
 
@@ -330,13 +331,13 @@ TPart ==
      IF q[1].out # "rows" THEN TRUE       \* the unfiltered query itself fails: nothing to partition
      ELSE IF \E i \in 2..4 : q[i].out # "rows" THEN
             (* a predicate that raises is outside the property unless only some variants raise *)
-            (\A i \in 2..4 : q[i].out # "rows") \/
+            IF (\A i \in 2..4 : q[i].out # "rows") THEN TRUE ELSE
             Emit(Finding("C19", "some-variants-fail", [outs |-> <<q[2].out, q[3].out, q[4].out>>, query |-> Rec[l].query]))
      ELSE LET all == RowStrs(q[1]) a == RowStrs(q[2]) b == RowStrs(q[3]) c == RowStrs(q[4])
               univ == {all[i] : i \in 1..Len(all)} \cup {a[i] : i \in 1..Len(a)}
                       \cup {b[i] : i \in 1..Len(b)} \cup {c[i] : i \in 1..Len(c)}
               bad == {x \in univ : CountIn(all, x) # CountIn(a, x) + CountIn(b, x) + CountIn(c, x)}
-          IN bad = {} \/
+          IN IF bad = {} THEN TRUE ELSE
              LET x == CHOOSE x \in bad : TRUE IN
              Emit(Finding("C19", IF CountIn(all, x) > CountIn(a, x) + CountIn(b, x) + CountIn(c, x)
                                  THEN "row-lost" ELSE "row-duplicated",
@@ -350,37 +351,40 @@ TPart ==
 (* evaluator CypherSem on the session's graph.  meta.ast = the query.      *)
 (***************************************************************************)
 ReadKeyCmp(t1, t2, order) == KeyCmp(OrderKeys(t1, order), OrderKeys(t2, order), OrderDirs(order), 1)
+(* "" when the observed rows O are an admissible answer for the reference bag E *)
+ReadVerdict(E, O, ret) ==
+  LET s == IF ret.skip < 0 THEN 0 ELSE ret.skip
+      rest == IF Len(E) > s THEN Len(E) - s ELSE 0
+      want == IF ret.limit < 0 \/ ret.limit > rest THEN rest ELSE ret.limit
+      sliced == ret.skip > 0 \/ (ret.limit >= 0 /\ ret.limit < Len(E))
+      foreign == {p \in 1..Len(O) : CountSame(O, O[p]) > CountSame(E, O[p])}
+      missing == {p \in 1..Len(E) : CountSame(O, E[p]) < CountSame(E, E[p])}
+      unsorted == {p \in 1..(Len(O) - 1) : ReadKeyCmp(O[p], O[p + 1], ret.order) > 0}
+      before(t, strict) == Cardinality({i \in 1..Len(E) :
+                              LET c == ReadKeyCmp(E[i], t, ret.order) IN IF strict THEN c < 0 ELSE c <= 0})
+      misplaced == {p \in 1..Len(O) : ~(before(O[p], TRUE) < s + p /\ s + p <= before(O[p], FALSE))}
+  IN IF Len(O) # want THEN "row-count"
+     ELSE IF foreign # {} THEN "row-not-in-reference"
+     ELSE IF ~sliced /\ missing # {} THEN "row-missing"
+     ELSE IF Len(ret.order) > 0 /\ unsorted # {} THEN "not-sorted"
+     ELSE IF Len(ret.order) > 0 /\ misplaced # {} THEN "wrong-slice"
+     ELSE ""
 TRead ==
   /\ IsCase("read")
   /\ LET q == Meta.ast
          E == ResultBag(gr, q)
-         ret == q.ret
-         O == Rows
-         s == IF ret.skip < 0 THEN 0 ELSE ret.skip
-         rest == IF Len(E) > s THEN Len(E) - s ELSE 0
-         want == IF ret.limit < 0 \/ ret.limit > rest THEN rest ELSE ret.limit
-         sliced == ret.skip > 0 \/ (ret.limit >= 0 /\ ret.limit < Len(E))
-         foreign == {p \in 1..Len(O) : CountSame(O, O[p]) > CountSame(E, O[p])}
-         missing == {p \in 1..Len(E) : CountSame(O, E[p]) < CountSame(E, E[p])}
-         unsorted == {p \in 1..(Len(O) - 1) : ReadKeyCmp(O[p], O[p + 1], ret.order) > 0}
-         before(t, strict) == Cardinality({i \in 1..Len(E) :
-                                 LET c == ReadKeyCmp(E[i], t, ret.order) IN IF strict THEN c < 0 ELSE c <= 0})
-         misplaced == {p \in 1..Len(O) : ~(before(O[p], TRUE) < s + p /\ s + p <= before(O[p], FALSE))}
-         show(t) == [i \in 1..Len(t) |-> IF t[i][1] = "rel" THEN <<"rel", t[i][2]>> ELSE t[i]]
-     IN IF ~IsRows THEN Emit(Finding("C11", "query-failed", [err |-> Res.err, query |-> Rec[l].query]))
-        ELSE IF Len(O) # want THEN
-               Emit(Finding("C11", "row-count", [got |-> Len(O), want |-> want, query |-> Rec[l].query]))
-        ELSE IF foreign # {} THEN
-               Emit(Finding("C11", "row-not-in-reference",
-                            [row |-> O[CHOOSE p \in foreign : TRUE], query |-> Rec[l].query]))
-        ELSE IF ~sliced /\ missing # {} THEN
-               Emit(Finding("C11", "row-missing",
-                            [row |-> show(E[CHOOSE p \in missing : TRUE]), query |-> Rec[l].query]))
-        ELSE IF Len(ret.order) > 0 /\ unsorted # {} THEN
-               Emit(Finding("C11", "not-sorted", [pos |-> CHOOSE p \in unsorted : TRUE, query |-> Rec[l].query]))
-        ELSE IF Len(ret.order) > 0 /\ misplaced # {} THEN
-               Emit(Finding("C11", "wrong-slice", [pos |-> CHOOSE p \in misplaced : TRUE, query |-> Rec[l].query]))
-        ELSE TRUE
+         v == IF IsRows THEN ReadVerdict(E, Rows, q.ret) ELSE "query-failed"
+         cause == IF v = "" \/ ~IsRows THEN ""
+                  ELSE IF MultiPattern(q) /\ ReadVerdict(ResultBagU(gr, q, TRUE), Rows, q.ret) = ""
+                       THEN "rel-uniqueness-only-within-one-pattern"
+                  ELSE IF BoundMidNode(q) THEN "bound-node-in-the-middle-of-a-pattern"
+                  ELSE IF HasParallel(gr) THEN "graph-has-parallel-relationships"
+                  ELSE "none"
+     IN IF v = "" THEN TRUE
+        ELSE Emit(Finding("C11", v, [cause |-> cause, got |-> NRows, reference |-> Len(E),
+                                     refrows |-> IF Len(E) <= 6 THEN E ELSE SubSeq(E, 1, 6),
+                                     gotrows |-> IF NRows <= 6 THEN Rows ELSE SubSeq(Rows, 1, 6),
+                                     err |-> Res.err, query |-> Rec[l].query]))
   /\ l' = l + 1 /\ UNCHANGED <<ovf, gr>>
 
 TSession ==
